@@ -255,18 +255,20 @@ class SimCluster:
         obj = req.to_object()
         self.req_ordinal += 1
         info = {"ordinal": self.req_ordinal, "node": ep.node, "api": name, "version": version,
-                "cid": tr.cid, "req": obj, "cls": cls}
+                "cid": tr.cid, "req": obj, "cls": cls, "client": client_id}
         fault = self.fault_for(info)
         e = self.ev("request", ordinal=info["ordinal"], node=ep.node, api=name, version=version,
-                    cid=tr.cid, fault=fault.to_json() if fault else None,
+                    cid=tr.cid, client=client_id, fault=fault.to_json() if fault else None,
                     summary=summarize(name, obj))
         info["event"] = e
         if self.on_request:
             self.on_request(info)
+        info["ep"] = ep
         if fault and fault.kind == "drop_before":
             tr.server_drop()
             return
         if fault and fault.kind == "no_reply_before":
+            self.stall(tr)
             return
         handler = getattr(self, "h_" + name, None)
         if handler is None:
@@ -280,14 +282,24 @@ class SimCluster:
             tr.server_drop()
             return
         if fault and fault.kind == "no_reply":
+            self.stall(tr)
             return
-        if resp is None:          # acks=0 or deferred reply
+        if resp is None:          # acks=0: no reply is due, next request may proceed
+            ep.done(tr)
             return
         delay = self.latency(ep.node, name) + (fault.delay if fault and fault.kind == "delay" else 0.0)
         if callable(resp):        # deferred: handler will call send later
             resp(lambda r: self.send_reply(tr, cls, corr, r, self.latency(ep.node, name), info))
             return
         self.send_reply(tr, cls, corr, resp, delay, info)
+
+    stall_reset_after = 5.0
+
+    def stall(self, tr):
+        """A reply that is never sent: the connection stays blocked (head of line) and the
+        broker resets it after `stall_reset_after` seconds."""
+        if self.stall_reset_after is not None:
+            tr.server_drop(delay=self.stall_reset_after)
 
     def send_reply(self, tr, cls, corr, resp_obj, delay, info):
         resp = mk_response(cls, resp_obj) if isinstance(resp_obj, dict) else resp_obj
@@ -297,6 +309,13 @@ class SimCluster:
         payload = hdr + resp.encode()
         self.ev("reply", ordinal=info["ordinal"], api=info["api"], summary=summarize_resp(info["api"], resp_obj))
         tr.deliver(struct.pack(">i", len(payload)) + payload, delay)
+        ep = info.get("ep")
+        if ep is not None:
+            # the next request of this connection is processed once this reply is on its way
+            if delay > 0:
+                self.loop.call_later(delay, ep.done, tr)
+            else:
+                self.loop.call_soon(ep.done, tr)
 
     def error_reply(self, name, cls, obj, code):
         if name == "Produce":
@@ -678,14 +697,29 @@ class Endpoint:
         self.buf = b""
         b = cluster.brokers[node]
         self.addr = (b["host"], b["port"])
+        self.queue = []       # complete request frames not yet processed
+        self.busy = False     # a request is being processed / its reply not yet handed over
 
     def on_bytes(self, tr, data):
+        """A Kafka broker processes the requests of one connection strictly one at a time
+        and in order (the channel is muted until the response is sent)."""
         self.buf += data
         while len(self.buf) >= 4:
             (size,) = struct.unpack(">i", self.buf[:4])
             if len(self.buf) < 4 + size:
-                return
+                break
             frame, self.buf = self.buf[4:4 + size], self.buf[4 + size:]
+            self.queue.append(frame)
+        self.pump(tr)
+
+    def done(self, tr):
+        self.busy = False
+        self.pump(tr)
+
+    def pump(self, tr):
+        while not self.busy and self.queue:
+            frame = self.queue.pop(0)
+            self.busy = True
             api_key, version, corr = struct.unpack(">hhi", frame[:8])
             (cl,) = struct.unpack(">h", frame[8:10])
             pos = 10
@@ -700,6 +734,9 @@ class Endpoint:
                 tr.server_drop()
                 return
             self.cluster.handle(self, tr, api_key, version, corr, client_id, frame[pos:], 0)
+            # handle() calls ep.done(tr) when the reply has been handed over (or none is due);
+            # after no_reply faults the connection stays busy: head-of-line blocking until the
+            # client gives up and closes it.
 
     def on_client_close(self, tr):
         self.cluster.ev("client_close", cid=tr.cid, node=self.node)
